@@ -486,14 +486,17 @@ package internal
 //@   ensures result1 == nil ==> allRefsNonNil(result0)                # name: refs-non-nil
 //@   ensures upstreamCalls == old(upstreamCalls)
 
+// lastLoaded: what the last ResponseCache.Get returned (nil when it failed)
+//@ ghost var lastLoaded *Response
 // loadedFrom(e): the response ID a stored entry was loaded under
 //@ spec func loadedFrom(e *Response) string
 //@ iface ResponseCache.Get(c, key, req)
 //@   property C10
-//@   pure
+//@   assigns lastLoaded
 //@   ensures upstreamCalls == old(upstreamCalls)
 //@   ensures (result0 != nil) != (result1 != nil)
 //@   ensures result0 != nil ==> loadedFrom(result0) == key                          # ghost-update
+//@   ensures lastLoaded == result0                                                   # ghost-update
 //@   ensures result0 != nil ==> result0.Data != nil && result0.Data.Header != nil && fresh(result0) && fresh(result0.Data) && fresh(result0.Data.Header)
 
 //@ iface VaryMatcher.VaryHeadersMatch(m, entries, reqHdr)
@@ -1111,3 +1114,7 @@ package internal
 //@   pure
 //@   ensures !hasPfx(s, "\x00b64:") ==> result0 == s && result1 == nil        # name: plain-strings-read-as-written
 //@   ensures forall x string :: s == escOf(x) ==> result0 == x && result1 == nil                  # name: decoding-undoes-encoding
+//@ func (ResponseRef).MarshalJSON
+//@   property C04 C09 C19
+//@   pure
+//@   loop 0 invariant forall k string :: has(out.VaryResolved, k) ==> validUTF8(k) && validUTF8(get(out.VaryResolved, k))
